@@ -7,6 +7,7 @@ package main
 
 import (
 	"fmt"
+	"os"
 	"go/token"
 	"go/types"
 	"sort"
@@ -182,7 +183,13 @@ type dimIssue struct {
 
 // analyzeDims runs the discipline on one function.
 func (d *dimAnalyzer) analyzeDims(fn *ssa.Function) (issues []dimIssue, sites int) {
-	f := &fnDims{d: d, fn: fn, memo: map[ssa.Value]string{}, busy: map[ssa.Value]bool{}, mapKey: map[ssa.Value]string{}, mapVal: map[ssa.Value]string{}, mapSite: map[ssa.Value]ssa.Instruction{}}
+	f, issues := d.mapDims(fn)
+	return d.analyzeUses(f, issues)
+}
+
+// mapDims: pass 1 of the discipline — the key and value kinds of the maps a function fills.
+func (d *dimAnalyzer) mapDims(fn *ssa.Function) (f *fnDims, issues []dimIssue) {
+	f = &fnDims{d: d, fn: fn, memo: map[ssa.Value]string{}, busy: map[ssa.Value]bool{}, mapKey: map[ssa.Value]string{}, mapVal: map[ssa.Value]string{}, mapSite: map[ssa.Value]ssa.Instruction{}}
 	// pass 1 (twice, so value dims that depend on other maps settle): map updates define key/value dims
 	for round := 0; round < 2; round++ {
 		f.memo = map[ssa.Value]string{}
@@ -212,6 +219,12 @@ func (d *dimAnalyzer) analyzeDims(fn *ssa.Function) (issues []dimIssue, sites in
 		}
 	}
 	f.memo = map[ssa.Value]string{}
+	return f, issues
+}
+
+func (d *dimAnalyzer) analyzeUses(f *fnDims, issues []dimIssue) ([]dimIssue, int) {
+	fn := f.fn
+	sites := 0
 	// pass 2: uses
 	nLook, nGet, nEq := 0, 0, 0
 	for _, b := range fn.Blocks {
@@ -374,6 +387,337 @@ func ruleKeyDims(c *Ctx, m *Model, rule string, pkgFilter func(pkg string) bool)
 		}
 	}
 	return sites
+}
+
+// ---- maps handed from one function to another ---------------------------------------------
+
+// returnedMapKey: the key kind of the map a function returns (all returning sites agree).
+func (d *dimAnalyzer) returnedMapKey(fn *ssa.Function, resIdx int) string {
+	if len(fn.Blocks) == 0 {
+		return ""
+	}
+	f, _ := d.mapDims(fn)
+	got := ""
+	for _, b := range fn.Blocks {
+		for _, in := range b.Instrs {
+			rt, ok := in.(*ssa.Return)
+			if !ok || resIdx >= len(rt.Results) {
+				continue
+			}
+			// results spilled to a local because of a defer: every value stored there
+			cands := []ssa.Value{rt.Results[resIdx]}
+			if ld, isLd := rt.Results[resIdx].(*ssa.UnOp); isLd && ld.Op == token.MUL {
+				if al, isA := ld.X.(*ssa.Alloc); isA {
+					cands = nil
+					for _, rf := range *al.Referrers() {
+						if st, isSt := rf.(*ssa.Store); isSt && st.Addr == al {
+							cands = append(cands, st.Val)
+						}
+					}
+				}
+			}
+			for _, cv := range cands {
+				r := mapRoot(cv)
+				if r == nil {
+					continue
+				}
+				k := f.mapKey[r]
+				if k == "" {
+					continue
+				}
+				if got != "" && got != k {
+					return ""
+				}
+				got = k
+			}
+		}
+	}
+	return got
+}
+
+// sliceRoot: identity of a local slice (its make site, or the local variable that holds it).
+func sliceRoot(v ssa.Value) ssa.Value {
+	switch x := v.(type) {
+	case *ssa.MakeSlice:
+		return x
+	case *ssa.UnOp:
+		if a, ok := x.X.(*ssa.Alloc); ok && x.Op == token.MUL {
+			return a
+		}
+	case *ssa.Slice:
+		return sliceRoot(x.X)
+	case *ssa.Alloc:
+		return x
+	}
+	return nil
+}
+
+// paramMapKeyDemand: the key kind a function expects of a map parameter, read off what it does with the
+// keys it ranges over — looks them up in a map of a known key kind, or hands them to an ORM lookup keyed
+// on a known column — directly or after collecting them in a local slice (collect, sort, iterate).
+func (d *dimAnalyzer) paramMapKeyDemand(fn *ssa.Function, prm *ssa.Parameter) (string, token.Pos) {
+	f, _ := d.mapDims(fn)
+	tainted := map[ssa.Value]bool{}
+	slices := map[ssa.Value]bool{}
+	isT := func(v ssa.Value) bool {
+		for i := 0; i < 4; i++ {
+			if tainted[v] {
+				return true
+			}
+			switch x := v.(type) {
+			case *ssa.Convert:
+				v = x.X
+			case *ssa.ChangeType:
+				v = x.X
+			default:
+				return false
+			}
+		}
+		return false
+	}
+	for changed, round := true, 0; changed && round < 6; round++ {
+		changed = false
+		mark := func(v ssa.Value) {
+			if !tainted[v] {
+				tainted[v] = true
+				changed = true
+			}
+		}
+		for _, b := range fn.Blocks {
+			for _, in := range b.Instrs {
+				switch x := in.(type) {
+				case *ssa.Extract:
+					if nx, ok := x.Tuple.(*ssa.Next); ok && x.Index == 1 {
+						if rg, ok := nx.Iter.(*ssa.Range); ok {
+							src := rg.X
+							if ld, isLd := src.(*ssa.UnOp); isLd && ld.Op == token.MUL {
+								if a, isA := ld.X.(*ssa.Alloc); isA {
+									if sv := uniqueStore(a); sv != nil {
+										src = sv
+									}
+								}
+							}
+							if src == ssa.Value(prm) {
+								mark(x)
+							}
+						}
+					}
+				case *ssa.Store:
+					if !isT(x.Val) {
+						continue
+					}
+					switch a := x.Addr.(type) {
+					case *ssa.IndexAddr:
+						if r := sliceRoot(a.X); r != nil && !slices[r] {
+							slices[r] = true
+							changed = true
+						}
+					case *ssa.Alloc:
+						// a local variable holding a key
+						for _, rf := range *a.Referrers() {
+							if ld, ok := rf.(*ssa.UnOp); ok && ld.Op == token.MUL {
+								mark(ld)
+							}
+						}
+					}
+				case *ssa.UnOp:
+					if x.Op == token.MUL {
+						if ia, ok := x.X.(*ssa.IndexAddr); ok {
+							if r := sliceRoot(ia.X); r != nil && slices[r] {
+								mark(x)
+							}
+						}
+					}
+				case *ssa.Call:
+					// append(keys, k)
+					if bi, ok := x.Call.Value.(*ssa.Builtin); ok && bi.Name() == "append" && len(x.Call.Args) == 2 {
+						if sl, ok := x.Call.Args[1].(*ssa.Slice); ok {
+							if al, ok := sl.X.(*ssa.Alloc); ok {
+								for _, rf := range *al.Referrers() {
+									if ia, ok := rf.(*ssa.IndexAddr); ok {
+										for _, r2 := range *ia.Referrers() {
+											if st, ok := r2.(*ssa.Store); ok && isT(st.Val) {
+												// the appended-to slice and its result carry keys
+												for _, tgt := range []ssa.Value{x.Call.Args[0], x} {
+													if r := sliceRoot(tgt); r != nil && !slices[r] {
+														slices[r] = true
+														changed = true
+													}
+												}
+												for _, rf2 := range *x.Referrers() {
+													if st2, ok := rf2.(*ssa.Store); ok {
+														if a2, ok := st2.Addr.(*ssa.Alloc); ok && !slices[a2] {
+															slices[a2] = true
+															changed = true
+														}
+													}
+												}
+											}
+										}
+									}
+								}
+							}
+						}
+					}
+				case *ssa.Phi:
+					for _, e := range x.Edges {
+						if isT(e) {
+							mark(x)
+						}
+					}
+				}
+			}
+		}
+	}
+	got, pos := "", token.NoPos
+	demand := func(k string, p token.Pos) bool {
+		if k == "" {
+			return true
+		}
+		if got != "" && got != k {
+			return false
+		}
+		if got == "" {
+			got, pos = k, p
+		}
+		return true
+	}
+	for _, b := range fn.Blocks {
+		for _, in := range b.Instrs {
+			switch x := in.(type) {
+			case *ssa.Lookup:
+				if r := mapRoot(x.X); r != nil && isT(x.Index) {
+					if !demand(f.mapKey[r], x.Pos()) {
+						return "", token.NoPos
+					}
+				}
+			case *ssa.MapUpdate:
+				if r := mapRoot(x.Map); r != nil && isT(x.Key) {
+					// filling a local map under the parameter's keys: the kind the other fillers give it
+					for _, b2 := range fn.Blocks {
+						for _, in2 := range b2.Instrs {
+							if mu, ok := in2.(*ssa.MapUpdate); ok && mapRoot(mu.Map) == r && !isT(mu.Key) {
+								if !demand(f.dim(mu.Key), mu.Pos()) {
+									return "", token.NoPos
+								}
+							}
+						}
+					}
+				}
+			case *ssa.Call:
+				oc := d.m.AsORMCall(x)
+				if oc == nil || (oc.Kind != "get" && oc.Kind != "has") {
+					continue
+				}
+				names := oc.Table.PK
+				if oc.Method != "Get" && oc.Method != "Has" {
+					names = oc.Table.Unique["Get"+strings.TrimPrefix(strings.TrimPrefix(oc.Method, "Has"), "Get")]
+				}
+				for i, n := range names {
+					if i+1 >= len(x.Call.Args) {
+						break
+					}
+					if isT(x.Call.Args[i+1]) {
+						if !demand(d.columnDim(oc.Table, snakeToCamel(n)), x.Pos()) {
+							return "", token.NoPos
+						}
+					}
+				}
+			}
+		}
+	}
+	return got, pos
+}
+
+// ruleMapArgDims: a map handed to a function is keyed by the kind of key the function uses its keys as.
+// Both sides are read off the code: what the producer fills the map under, what the consumer looks the
+// keys up in. Two maps of the same Go type (map[uint64]Dec by basket id / by batch key) are
+// interchangeable for the compiler and for tests in which ids and keys coincide (first basket, first batch).
+func ruleMapArgDims(c *Ctx, m *Model, rule string, calleeFilter func(*ssa.Function) bool, demandOf ...func(sc *ssa.Function, prm *ssa.Parameter) string) (sites int) {
+	d := newDimAnalyzer(m)
+	p := m.P
+	for _, fn := range sortedFns(fnSet(m.subjectFns(false))) {
+		var fd *fnDims
+		for _, ci := range callsIn(fn) {
+			call, isCall := ci.(*ssa.Call)
+			if !isCall {
+				continue
+			}
+			sc := call.Call.StaticCallee()
+			if sc == nil || len(sc.Blocks) == 0 || !calleeFilter(sc) {
+				continue
+			}
+			off := 0
+			if call.Call.IsInvoke() {
+				continue
+			}
+			for i, a := range call.Call.Args {
+				if i-off >= len(sc.Params) {
+					break
+				}
+				if _, isMap := a.Type().Underlying().(*types.Map); !isMap {
+					continue
+				}
+				want, _ := d.paramMapKeyDemand(sc, sc.Params[i])
+				for _, df := range demandOf {
+					if want == "" {
+						want = df(sc, sc.Params[i])
+					}
+				}
+				if os.Getenv("DIMDEBUG") != "" {
+					fmt.Println("DIMDEBUG", funcKey(fn), "→", funcKey(sc), sc.Params[i].Name(), "want=", want)
+				}
+				if want == "" {
+					continue
+				}
+				have := ""
+				if r := mapRoot(a); r != nil {
+					if fd == nil {
+						fd, _ = d.mapDims(fn)
+					}
+					have = fd.mapKey[r]
+				} else {
+					v := a
+					if ld, ok := v.(*ssa.UnOp); ok && ld.Op == token.MUL {
+						if al, ok := ld.X.(*ssa.Alloc); ok {
+							if sv := uniqueStore(al); sv != nil {
+								v = sv
+							}
+						}
+					}
+					resIdx := 0
+					if ex, ok := v.(*ssa.Extract); ok {
+						resIdx = ex.Index
+						v = ex.Tuple
+					}
+					if pc, ok := v.(*ssa.Call); ok {
+						if prod := pc.Call.StaticCallee(); prod != nil {
+							have = d.returnedMapKey(prod, resIdx)
+						}
+					}
+				}
+				if have == "" {
+					continue
+				}
+				sites++
+				key := funcKey(fn) + "→" + funcKey(sc) + "#" + sc.Params[i].Name()
+				if have != want {
+					c.Violate(rule, key, p.Pos(call.Pos()), fmt.Sprintf("the map passed as %s is filled under %s keys, but %s uses its keys as %s values: every entry is attributed to a different entity", sc.Params[i].Name(), have, sc.Name(), want), nil)
+				} else {
+					c.Hold(rule, key, p.Pos(call.Pos()), fmt.Sprintf("the map passed as %s is filled under %s keys, which is what %s uses its keys as", sc.Params[i].Name(), have, sc.Name()), nil)
+				}
+			}
+		}
+	}
+	return sites
+}
+
+func fnSet(fns []*ssa.Function) map[*ssa.Function]bool {
+	out := map[*ssa.Function]bool{}
+	for _, f := range fns {
+		out[f] = true
+	}
+	return out
 }
 
 var _ = types.Typ
